@@ -28,7 +28,7 @@ SLACK = 8
 
 def bounds(tier, seed):
     q = tier == 'quick'
-    return {'documents_per_stream': 3 if q else 4, 'sizes': ['empty', 10, 'block/2', 'block-1', 'block+1', '2.5 blocks', '3 blocks + 5'], 'tails_in_blocks': [0, 10] if q else [0, 10, 100],
+    return {'documents_per_stream': 3 if q else 4, 'sizes': ['empty', 10, 'block/2', 'block-1', 'block+1', '2.5 blocks', '3 blocks + 5'], 'tails_in_blocks': [0, 10] if q else [0, 10, '100 (behind one or two documents)'],
             'schedules': ['default', 'every read short by 1', 'short by 7', 'short by half a block']}
 
 
@@ -355,6 +355,9 @@ def block_of(be, Loader):
     return _BLOCK[be]
 
 
+LATER4 = (0, 1, 4, 5)     # indices into size_values used for documents 2..4 of thorough 4-document streams
+
+
 def size_values(block):
     return [0, 10, block // 2, block - 1, block + 1, (5 * block) // 2, 3 * block + 5]
 
@@ -373,8 +376,12 @@ def plan(tier, seed):
             K = 3 if q else 4
             for k in range(1, K + 1):
                 for first in range(nsv):
-                    if k <= 2 or not q or first % 4 == seed % 4 or True:
+                    if q or k <= 2:
                         jobs.append(('cons', be, api, k, first, q))
+                    else:
+                        # thorough, 3 and 4 documents: one job per (first, second) size
+                        for second in range(nsv if k == 3 else len(LATER4)):
+                            jobs.append(('cons', be, api, k, first, q, second))
     return jobs
 
 
@@ -398,16 +405,20 @@ def run_job(job, T):
             check_bad(T, ns, BADS[job[3]], api, be, Loader, block)
         T.sample('errors', {'api': api, 'backend': be, 'bad': BADS[job[3]][0]})
     elif kind == 'cons':
-        _, _, _, k, first, q = job
+        _, _, _, k, first, q = job[:6]
+        second = job[6] if len(job) > 6 else None
         sv = size_values(block)
-        tails = (0, 10) if q else (0, 10, 100)
-        # quick: 3-document streams use a reduced size set for the later documents
-        later = sv if (k <= 2 or not q) else [0, 10, block + 1]
+        # the 100-block tail (about 400k units) only behind one or two documents
+        tails = (0, 10) if (q or k >= 3) else (0, 10, 100)
+        # quick: 3-document streams use a reduced size set for the later documents; thorough: 4-document streams
+        later = sv if (k <= 2 or (not q and k == 3)) else ([0, 10, block + 1] if q else [sv[i] for i in LATER4])
         scheds = [('default', 0), ('short-by-1', 1), ('short-by-7', 7), ('short-by-half-block', block // 2)]
         if k >= 2 and q:
             scheds = scheds[:2]
         sizes = None
         for rest in itertools.product(range(len(later)), repeat=k - 1):
+            if second is not None and rest[0] != second:
+                continue
             sizes = (sv[first],) + tuple(later[i] for i in rest)
             if sum(sizes) > 8 * block and k >= 3:
                 continue
